@@ -30,7 +30,7 @@ pub fn info() -> PropInfo {
     }
 }
 
-fn write_sync(w: &mut Writer<Vec<u8>>, specs: &[EvSpec]) -> std::io::Result<()> {
+fn write_sync<W: std::io::Write>(w: &mut Writer<W>, specs: &[EvSpec]) -> std::io::Result<()> {
     for s in specs {
         match s {
             EvSpec::Element(name, attrs, content) => {
@@ -209,6 +209,16 @@ pub fn check(c: &Case) -> Verdict {
     if got != want {
         let k = got.iter().zip(want.iter()).position(|(a, b)| a != b).unwrap_or(got.len().min(want.len()));
         return Verdict::fail(format!("item {}: constructed {:?}, read back {:?} | written: {:?}", k, want.get(k), got.get(k), B::show(&bytes)));
+    }
+    // the synchronous writer through a sink that accepts partial (plain and vectored) writes and
+    // interrupts some calls must produce the same bytes as into a Vec
+    let mut pw = Writer::new(crate::sources::PartialSyncSink::new(c.sink.0 as usize, c.sink.1));
+    if let Err(e) = write_sync(&mut pw, &c.events) {
+        return Verdict::fail(format!("sync writer failed on a sink with partial writes: {}", e));
+    }
+    let pbytes = pw.into_inner().out;
+    if pbytes != bytes {
+        return Verdict::fail(format!("sync writer through a sink accepting {} bytes per write produced {:?}, into a Vec {:?}", c.sink.0 & 0x7f, B::show(&pbytes), B::show(&bytes)));
     }
     let mut aw = Writer::new(PartialSink::new(c.sink.0 as usize, c.sink.1));
     if let Err(m) = write_async(&mut aw, &c.events) {
